@@ -231,6 +231,18 @@ Definition handle_packet (s : session) (p : rpacket) : session * hres :=
   | RDisconnect _ _ => (s, HErr EDisconnected)
   end.
 
+(* ghost (environment assumption of C06/C18): a PUBACK / PUBREC names a retained PUBLISH, never a retained
+   SUBSCRIBE / UNSUBSCRIBE (the client matches acknowledgements to retained packets by identifier only) *)
+Definition ack_type_ok (s : session) (p : rpacket) : bool :=
+  match p with
+  | RPubAck pid _ | RPubRec pid _ =>
+      match find (fun e => N.eqb (re_pid e) pid) (ob_ret (s_ob s)) with
+      | Some e => is_publish_entry (ob_buf (s_ob s)) e
+      | None => true
+      end
+  | _ => true
+  end.
+
 (* ---------- CONNECT request and CONNACK processing (handshake.rs) ---------- *)
 Definition connect_request (s : session) : connect_req :=
   {| cq_keepalive := cf_keepalive_s (s_cfg s) mod 65536;
